@@ -81,6 +81,8 @@ def mask_features(repo, fn):
 
 def check(ctx):
     repo = ctx.repo
+    from . import generic as _gen
+    _gen.language_traps(ctx, _gen.anchor_functions(repo, "C02"), "the property holds for every input, on every call")
     from . import generic
     generic.cross_column_promotion(ctx, [repo.fn(f"{DF}.unique")], "unique keeps one row per distinct combination of key values")
     generic.order_by_difference(ctx, generic.module_functions(repo, "dataiter.data_frame"),
